@@ -1656,6 +1656,50 @@ _resource_tracker""")),
                 self._executor_manager_thread_wakeup.wakeup()
         return f""")),
 
+    # ---------------------------------------------------------- round-2 lessons
+    M("callback-lock-feeder-hook-resolves-under-lock", ["C04", "C01"], ["R-CALLBACK-LOCK"],
+      (PE, """            if work_item is not None:
+                work_item.future.set_exception(raised_error)
+                del work_item
+            with self.shutdown_lock:
+                self.thread_wakeup.wakeup()""", """            with self.shutdown_lock:
+                if work_item is not None:
+                    work_item.future.set_exception(raised_error)
+                    del work_item
+                self.thread_wakeup.wakeup()""")),
+    M("callback-lock-terminate-broken-drains-under-lock", ["C02", "C01"], ["R-CALLBACK-LOCK"],
+      (PE, """        while self.pending_work_items:
+            try:
+                _, work_item = self.pending_work_items.popitem()
+            except KeyError:
+                break
+            try:
+                work_item.future.set_exception(bpe)""", """        while self.pending_work_items:
+            try:
+                _, work_item = self.pending_work_items.popitem()
+            except KeyError:
+                break
+            try:
+                with self.shutdown_lock:
+                    work_item.future.set_exception(bpe)""")),
+    M("iter-snapshot-waitset-live-values", ["C01", "C02", "C07"], ["R-ITER-SNAPSHOT"],
+      (PE, """        worker_sentinels = [p.sentinel for p in list(self.processes.values())]""",
+       """        worker_sentinels = [p.sentinel for p in self.processes.values()]""")),
+    M("iter-snapshot-adjust-debug-live-items", ["C09", "C10"], ["R-ITER-SNAPSHOT"],
+      (PE, """for pid, p in list(self._processes.items())]}\"""", """for pid, p in self._processes.items()]}\"""")),
+    M("wrap-update-wrapper-copies-dict", ["C16"], ["R-WRAP-FIELDS"],
+      (CW, """class CallableObjectWrapper(CloudpickledObjectWrapper):
+    def __call__(self, *args, **kwargs):""", """class CallableObjectWrapper(CloudpickledObjectWrapper):
+    def __init__(self, obj, keep_wrapper=False):
+        super().__init__(obj, keep_wrapper=keep_wrapper)
+        import functools
+        functools.update_wrapper(self, obj)
+
+    def __call__(self, *args, **kwargs):""")),
+    M("once-cancelled-check-not-atomic", ["C03"], ["R-ONCE"],
+      (PE, """                if work_item.future.set_running_or_notify_cancel():""", """                if not work_item.future.cancelled():
+                    work_item.future.set_running_or_notify_cancel()""")),
+
 ]
 
 
